@@ -804,14 +804,29 @@ def tabulate(meta, fresh_each=True, die_budget=4000):
 _FILES = {}
 
 
+SYNTH = ('A', 'B', 'C', 'Abe')
+
+
 def load_file(name):
-    """name: 'A'/'B'/'C' (synthesized) or a path relative to /repo/test"""
+    """name: 'A'/'B'/'C'/'Abe' (synthesized; Abe = the big-endian twin of A) or a path relative to /repo/test.
+    The description of a file is tabulated in a child process of its own, forked before this process has parsed
+    anything with the library: the oracle is the answer of a fresh object in a fresh process, so that state the
+    library keeps at module or class level (shared between file objects) cannot leak into it."""
     if name in _FILES:
         return _FILES[name]
+    import multiprocessing
+    with multiprocessing.get_context('fork').Pool(1) as pool:
+        meta = pool.apply(_load_file, (name,))
+    _FILES[name] = meta
+    return meta
+
+
+def _load_file(name):
     from tools.harness import c10_build
     from tools.lib.framework import REPO
-    if name in ('A', 'B', 'C'):
-        f = {'A': c10_build.file_a, 'B': c10_build.file_b, 'C': c10_build.file_c}[name]()
+    if name in SYNTH:
+        f = {'A': c10_build.file_a, 'B': c10_build.file_b, 'C': c10_build.file_c,
+             'Abe': lambda: c10_build.file_a(False)}[name]()
         meta = dict(name=name, image=f['image'], labels=f['labels'], synthesized=True, string_offsets=[0, 1, 2])
     else:
         with open(os.path.join(str(REPO), 'test', name), 'rb') as fh:
@@ -828,7 +843,6 @@ def load_file(name):
         # the synthesized files are well formed by construction (c10_build.py): when plain sequential parsing of
         # one of them fails, that is reported as a failing case of its own and the file is not explored
         meta['broken'] = '%s: %s' % (type(ex).__name__, ex)
-    _FILES[name] = meta
     return meta
 
 
@@ -1058,6 +1072,8 @@ def _hkey(name, history):
     return (name, repr(history))
 
 
+PAIRS = [('A', 'Abe')]
+
 RANDOM_FILES = [
     'testfiles_for_unittests/lib_versioned64.so.1.elf', 'testfiles_for_unittests/dwarf_v5_forms.debug',
     'testfiles_for_unittests/dwarf_lineprog_data16.elf', 'testfiles_for_unittests/dwarf_debug_types.elf',
@@ -1141,6 +1157,31 @@ def _sid_sizes(meta):
     return meta['sid_sizes']
 
 
+# ------------------------------------------------------------------ two file objects alive in one process
+def pair_alphabet(meta):
+    """queries whose answers go through byte-order / size / format dependent parsing"""
+    u0 = meta['units'][0]['off']
+    ops = [['TopDIE', u0], ['LineEntries', u0], ['CFI', 0], ['ESection', 2], ['ESymbol', 1]]
+    if meta['has_ehcfi']:
+        ops += [['CFI', 1]] + [['CFIDecoded', 1, i] for i, e in enumerate(meta['cfi_ents'][1]) if e[0] == 1][:1]
+    return ops
+
+
+def _pair_worker(task):
+    """one history over TWO opened files, in a process of its own (forked from a process that has parsed nothing)"""
+    nx, ny, h = task
+    objs = [Opened(load_file(nx)), Opened(load_file(ny))]
+    return [objs[w].do(op) for w, op in h]
+
+
+def run_pairs(tasks, workers=16):
+    import multiprocessing
+    if not tasks:
+        return []
+    with multiprocessing.get_context('fork').Pool(min(workers, len(tasks)), maxtasksperchild=1) as pool:
+        return pool.map(_pair_worker, tasks, chunksize=1)
+
+
 def gen(ctx):
     cases = []
     depth = ctx.scale(int(os.environ.get('C10_DEPTH', '4')), 8)
@@ -1164,6 +1205,17 @@ def gen(ctx):
             for h, a, st in edges:
                 _CACHE[_hkey(name, h)] = (a, st)
                 cases.append(('bfs', [name, h]))
+    # two differently configured file objects in one process (other byte order): every interleaving of their
+    # queries up to the depth bound; each answer is compared with the stateless answer for ITS file
+    for nx, ny in PAIRS:
+        mx, my = load_file(nx), load_file(ny)
+        if mx.get('broken') or my.get('broken'):
+            continue
+        sym = [(0, op) for op in pair_alphabet(mx)] + [(1, op) for op in pair_alphabet(my)]
+        level = [[]]
+        for _ in range(ctx.scale(3, 4)):
+            level = [h + [s] for h in level for s in sym]
+            cases += [('pair', [nx + '+' + ny, [[w, op] for w, op in h]]) for h in level]
     # long random histories with a Disturb after every call
     n_hist = ctx.scale(1, 6)
     total = ctx.scale(1000, 100000)
@@ -1243,9 +1295,44 @@ def _stride(meta):
     return 1 if n <= 300 else 25
 
 
+def evaluate_pairs(ctx, cases, idxs):
+    """the product of two independent machines: the answers must be, componentwise, the stateless answers"""
+    groups = {}
+    for i in idxs:
+        groups.setdefault(cases[i][1][0], []).append(i)
+    for pname, ids_ in groups.items():
+        nx, ny = pname.split('+')
+        metas = [load_file(nx), load_file(ny)]
+        wfs = []
+        for m in metas:
+            wf, nodef, fuel_ok = ctx.driver.one(['wf', m['desc'], _fuel(m)])
+            wfs.append(bool(wf) and bool(fuel_ok))
+        hs = [[(w, op) for w, op in cases[i][1][1]] for i in ids_]
+        impl_all = run_pairs([(nx, ny, h) for h in hs])
+        subs = [[[op for w, op in h if w == k] for h in hs] for k in (0, 1)]
+        res = [drv_runs(ctx, metas[k], subs[k]) if any(subs[k]) else [] for k in (0, 1)]
+        for n, (i, h, impl) in enumerate(zip(ids_, hs, impl_all)):
+            pos = [0, 0]
+            spec, model, valid = [], [], True
+            for w, op in h:
+                if not subs[w][n]:
+                    continue
+                mo, sp, va, _ = res[w][n]
+                spec.append(sp[pos[w]]); model.append(mo[pos[w]]); valid = valid and bool(va[pos[w]])
+                pos[w] += 1
+            ctx.bump('pair_len', len(h))
+            ctx.record('pair', cases[i][1], impl=impl, spec=spec, model=model, in_domain=all(wfs) and valid,
+                       nontrivial=len(set(w for w, _ in h)) == 2, key='pair:' + h[-1][1][0])
+
+
 def evaluate(ctx, cases):
+    pair_idx = [i for i, (kind, a) in enumerate(cases) if kind == 'pair']
+    if pair_idx:
+        evaluate_pairs(ctx, cases, pair_idx)      # first: this process has not parsed anything yet
     by_file = {}
     for idx, (kind, a) in enumerate(cases):
+        if kind == 'pair':
+            continue
         by_file.setdefault(a[0], []).append(idx)
     iso = {}
     for name, idxs in by_file.items():
